@@ -872,7 +872,7 @@ var c06Faults = []string{
 	"otherpayload", "unredacted", "unsupported-alg-only", "expired-before-ts", "expired-before-ts", "stale-valid-until", "stale-valid-until", "no-valid-until",
 }
 
-var c06KeyOKDeltas = []int64{0, 1, c06Second, c06Day, c06Year}
+var c06KeyOKDeltas = []int64{0, 1, c06Second, c06Day, c06Year, 300 * c06Year}
 var c06KeyBadDeltas = []int64{1, c06Second, c06Day, c06Year}
 
 // c06PlanSigner adds signatures and key rows for one server according to fault.
@@ -942,6 +942,10 @@ func c06GenTS(t *rapid.T) c06TS {
 	case 2:
 		// beyond now+7d by at least an hour
 		return c06TS{Rel: true, V: rapid.Int64Range(c06Week+c06Hour, 400*c06Day).Draw(t, "tsFar")}
+	case 3:
+		// centuries ahead (an origin_server_ts is whatever the sender writes): beyond what a
+		// time.Duration / UnixNano can hold
+		return c06TS{V: rapid.SampledFrom([]int64{9223372036854, 9223372036855, 9300000000000, 18446744073709, 9007199254740991}).Draw(t, "tsHuge")}
 	default:
 		return c06TS{V: rapid.Int64Range(100000000000, 1600000000000).Draw(t, "tsAbs")}
 	}
